@@ -25,5 +25,8 @@ def check(ctx):
               driver_args=["--clean", "600" if q else "12000", "--max-boots", "4" if q else "6", "--max-per-boot", "5" if q else "9"],
               # the same contract on a 1 ms grid: boots of minutes to hours followed by off-times of a few ms
               extra_runs=[["--tick-us", "1000", "--clean-fine", "--clean", "300" if q else "6000", "--max-boots", "4" if q else "6",
+                           "--max-per-boot", "4" if q else "8"],
+                          # and at the very start of the epoch: boot time + delay = 0, a timestamp equal to the reception time
+                          ["--epoch0", "--clean-zero", "--clean", "200" if q else "4000", "--max-boots", "3" if q else "5",
                            "--max-per-boot", "4" if q else "8"]],
               what="exact lifecycle detection on cleanly separated power cycles")
